@@ -661,7 +661,10 @@ def _run(ctx, workdir):
                 for c in EXC_CLASSES: g.add(b['name'], b['program'], b['opts'], b['warm'], faults=[[k, c.__name__, None]], parent=b['id'])
         # SIGKILL
         kks = list(range(n + 1))
-        if not (ctx.thorough or (b['name'] in QUICK_FULL_KILLS and not b['warm'])):
+        if ctx.thorough:
+            # every call index of every fixed program; 5 random indices of each random program (a kill costs ~0.5-2 s)
+            if b['name'].startswith('random'): kks = sorted(rng.sample(kks, min(len(kks), 5)))
+        elif not (b['name'] in QUICK_FULL_KILLS and not b['warm']):
             kks = sorted(rng.sample(kks, 1)) if (b['id'] % 3 == ctx.seed % 3) else []
         for k in kks:
             if k < n: g.add(b['name'], b['program'], b['opts'], b['warm'], kill=['before', k], parent=b['id'])
